@@ -453,6 +453,13 @@ func (e *Engine) eqVal(a, b Val, t types.Type) string {
 		return and(cs...)
 	case IfaceVal:
 		y := b.(IfaceVal)
+		// comparison with the nil interface: only the dynamic type matters
+		if isBVLit(y.Tag) && y.Tag == bvLit(0, 16) {
+			return eq(x.Tag, y.Tag)
+		}
+		if isBVLit(x.Tag) && x.Tag == bvLit(0, 16) {
+			return eq(x.Tag, y.Tag)
+		}
 		// interface equality: same dynamic type and equal payload. Payload slots not
 		// used by the dynamic type are kept at their zero value by construction.
 		return and(eq(x.Tag, y.Tag), eq(x.Ref, y.Ref), eq(x.Str, y.Str), eq(x.BV, y.BV))
